@@ -9,6 +9,13 @@ From Coq Require Import ZArith.
 Lemma c_defaultFlushCount_ok : defaultFlushCount = 100%Z. Proof. reflexivity. Qed.
 Lemma c_maxSyncRegionBatchSize_ok : maxSyncRegionBatchSize = 100%Z. Proof. reflexivity. Qed.
 Lemma c_defaultHistoryBufferSize_ok : defaultHistoryBufferSize = 10000%Z. Proof. reflexivity. Qed.
+(* An incremental answer carries up to a whole history window in ONE message, and the follower's gRPC client refuses
+   messages above msgSize (MaxCallRecvMsgSize in establish): the window must fit. 800 bytes per record (region meta with
+   its peers and keys, the leader peer, the four flow counters) is the budget this check pins; the driver sends a full
+   window of ~300-byte records through the real transport in every run. *)
+Definition record_budget : Z := 800%Z.
+Lemma history_window_fits_receive_limit : (defaultHistoryBufferSize * record_budget <= msgSize)%Z.
+Proof. discriminate. Qed.
 (* the follower's buffer cannot be smaller than a full-sync batch *)
 Lemma batch_fits_history : (maxSyncRegionBatchSize <= defaultHistoryBufferSize)%Z. Proof. discriminate. Qed.
 
